@@ -26,10 +26,15 @@ corresponds to a recorded finding or to a construct not modelled):
   with `=`; a `type` attribute on `script` / `style` (it selects the language: not modelled);
 * in script content: template literals (a backtick in code), regular-expression literals (a `/`
   in code position where a regex may start and that does not open a comment), a raw LF / CR inside
-  a string literal, a quote that directly follows an escaped backslash (`"…\\"`), the byte 0xE2
-  in a line comment (U+2028 / U+2029), and `</` that is not the element's own end tag `</script>`;
-* in style content: a quote inside a comment, a raw newline inside a string, a quote directly
-  after an escaped backslash, and `</` that is not `</style>`.
+  a string literal, the byte 0xE2 in a line comment (U+2028 / U+2029 end the comment, for the lexer
+  too since b0a8648; the three-byte terminator is not modelled here), and `</` that is not the
+  element's own end tag `</script>`;
+* in style content: a quote inside a comment, a raw newline inside a string, and `</` that is not
+  `</style>`.
+
+A string literal that ends in an escaped backslash (`"…\\"`) belonged to the exclusions until the
+lexer learnt to skip `\\` as a pair (8287339, finding string-escaped-backslash-desync); it is in `D`
+now: the state `strBs` (directly after an escaped backslash) behaves as `str`.
 
 Core Lean only. -/
 namespace ScriggoV.HtmlTok
@@ -81,7 +86,7 @@ def jsStep : JsS → UInt8 → JsS
   | .blockCStar, c => if c == 0x2F then .code true else if c == 0x2A then .blockCStar else .blockC
   | .str q, c => jsStr q c
   | .strEsc q, c => if c == 0x5C then .strBs q else .str q
-  | .strBs q, c => if c == q then .bad else jsStr q c    -- `\\"`: finding string-escaped-backslash-desync
+  | .strBs q, c => jsStr q c                             -- `\\` is a complete escape: a quote here ends the literal
   | .bad, _ => .bad
 
 /-- CSS lexical state inside a style element -/
@@ -109,7 +114,7 @@ def cssStep : CssS → UInt8 → CssS
     else if c == 0x22 || c == 0x27 then .bad else .blockC
   | .str q, c => cssStr q c
   | .strEsc q, c => if c == 0x5C then .strBs q else .str q
-  | .strBs q, c => if c == q then .bad else cssStr q c
+  | .strBs q, c => cssStr q c
   | .bad, _ => .bad
 
 inductive RawK
